@@ -493,7 +493,7 @@ class Engine:
             elif op == "enter":
                 await self.do_enter(cmd)
             elif op == "leave":
-                await self.do_leave(cmd)
+                expected_events = await self.do_leave(cmd) or []
             elif op == "add_resource":
                 expected_events = await self.do_add_resource(cmd)
             elif op == "add_factory":
@@ -584,7 +584,7 @@ class Engine:
         if cmd.get("late"):
             self.inc("entered_after_parent_changed")
 
-    async def do_leave(self, cmd: dict[str, Any]) -> None:
+    async def do_leave(self, cmd: dict[str, Any]) -> Any:
         cid = cmd["cid"]
         a = self.actors[cid]
         mc = self.model.ctxs[cid]
@@ -593,12 +593,23 @@ class Engine:
         # it resolved to before (lookups are allowed until the teardown is over)
         during_teardown: dict[Any, Any] = {}
 
+        late_tag = ("val", self.fresh())
+        late_value = make_value(0, late_tag)
+        self.pin(late_tag, late_value)
+        late: dict[str, Any] = {}
+
         def lookups_during_teardown() -> None:
             for (t, name), res in list(mc.resources.items()):
                 try:
                     during_teardown[(t, name)] = ("ok", ctx.get_resource_nowait(POOL[t], name, optional=True))
                 except Exception as e:  # noqa: BLE001
                     during_teardown[(t, name)] = ("exc", e)
+            # ... and a resource may still be added while the teardown is running: a successful add like any other (announced once)
+            try:
+                ctx.add_resource(late_value, f"late_{cid}", [POOL[0]])
+                late["outcome"] = "ok"
+            except Exception as e:  # noqa: BLE001
+                late["outcome"] = e
 
         ctx.add_teardown_callback(lookups_during_teardown)
         await a.send.send((None, None))
@@ -611,6 +622,12 @@ class Engine:
                 self.bad("singleton-different-object" if isinstance(tag, tuple) and tag[0] == "gen" else "scope-wrong-object",
                          f"{cmd}: while context {cid} was being torn down, ({tname(POOL[t])}, {name!r}) resolved to {what}; before that it resolved to {tag}")
                 break
+        late_events: list[Any] = []
+        if late.get("outcome") == "ok":
+            self.inc("resources_added_during_teardown")
+            late_events = [(cid, [(0,)], f"late_{cid}", None, False)]
+        elif "outcome" in late:
+            self.bad("add-unexpected-exception", f"{cmd}: add_resource() from a teardown callback of context {cid} raised {describe_exc(late['outcome'])}")
         mc.state = "closed"
         if mc.parent is not None:
             self.model.ctxs[mc.parent].open_children.discard(cid)
@@ -620,6 +637,7 @@ class Engine:
         if a.teardown_ran != exp:
             self.bad("atomic-teardown-set", f"{cmd}: teardown callbacks run at exit: {a.teardown_ran}; registered successfully (reverse order): {exp}")
         self.inc("contexts_left")
+        return late_events
 
     async def do_add_resource(self, cmd: dict[str, Any]) -> list[Any]:
         from asphalt.core import add_resource
